@@ -34,17 +34,47 @@ package protocol
 //@   ensures !old(len(src) == 0 || src[0] != '/') ==> len(r) == len(dst)
 
 //@ func decodeArgAppendNoPlus(dst, src) r
-//@   props C07, C03
+//@   props C07, C03, C17
 //@   alias dst
-//@   modifies spare(dst)
+//@   modifies spare(dst), qk
+//@   frame-prop C03
+//@   replay-import github.com/cloudwego/hertz/internal/bytesconv
+//@   replay-go al := []byte{'%', '+', ' ', 'A', '0', '/', 0xff, 0, '*', '?', 'a', 'G'}; var rec func(x []byte, d int); rec = func(x []byte, d int) { r := verifPathRoundTrip(x); if !bytes.Equal(r, x) { fmt.Printf("VCGO-VIOLATED decodeArgAppendNoPlus(AppendQuotedPath(%q)=%q) = %q\n", x, bytesconv.AppendQuotedPath(nil, x), r); panic("stop") }; if d == 0 { return }; for _, c := range al { rec(append(append([]byte{}, x...), c), d-1) } }; rec(nil, 4)
 //@   allocates
 //@   ensures extends(r, dst) && spareOnly(dst)
 //@   ensures len(src) > 0 && old(src[0]) != '%' ==> len(r) > len(dst) && r[len(dst)] == old(src[0])
+//@   requires @C17 qok ==> isPathEncoding(src) && !sameArray(dst, src)
+//@   ghostset-at-entry qk = 0
+//@   ghostset after append#2: qk = qk + 1
+//@   ghostset after append#3: qk = qk + 1
+//@   ghostset after append#4: qk = qk + 1
+//@   assert @C17 before append#1: qok && 0 <= qk && qk < qn && i == qpos[qk] && qx[qk] >= -1 ==> false
+//@   assert @C17 before append#2: qok && 0 <= qk && qk < qn && i == qpos[qk] && qx[qk] >= -1 ==> false
+//@   assert @C17 before IndexByte#0: hexTablesInverse() && true
+//@   assert @C17 before append#3: qok && 0 <= qk && qk < qn && i == qpos[qk] ==> src[i] == '%'
+//@   assert @C17 before append#3: qok && 0 <= qk && qk < qn && i == qpos[qk] ==> src[i+1] == hexU(qx[qk] / 16) && src[i+2] == hexU(qx[qk] % 16) && qpos[qk+1] == i + 3
+//@   assert @C17 before append#3: x1 == hexv(src[i+1]) && x2 == hexv(src[i+2])
+//@   assert @C17 before append#3: qok && 0 <= qk && qk < qn && i == qpos[qk] ==> 0 <= qx[qk] / 16 && qx[qk] / 16 < 16 && hexv(hexU(qx[qk] / 16)) == qx[qk] / 16 && hexv(hexU(qx[qk] % 16)) == qx[qk] % 16
+//@   assert @C17 before append#3: qok && 0 <= qk && qk < qn && i == qpos[qk] ==> x1 == qx[qk] / 16 && x2 == qx[qk] % 16
+//@   assert @C17 before append#4: qok && 0 <= qk && qk < qn && i == qpos[qk] ==> qx[qk] == c && qpos[qk+1] == i + 1
+//@   assert @C17 after append#3: 0 <= x1 && x1 < 16 && 0 <= x2 && x2 < 16 ==> len(result) == len(dst) + 1 && result[len(dst)] == x1 * 16 + x2
+//@   assert @C17 after append#3: qok && 0 <= qk && qk < qn && i == qpos[qk] && len(dst) == len(old(dst)) + qk ==> len(result) == len(old(dst)) + qk + 1 && result[len(old(dst)) + qk] == qx[qk]
+//@   assert @C17 after append#3: 0 <= qk && len(dst) == len(old(dst)) + qk && forallT(j, 0, qk, qx[j], dst[len(old(dst)) + j] == qx[j]) ==> forallT(j, 0, qk, qx[j], result[len(old(dst)) + j] == qx[j])
+//@   assert @C17 after append#3: qok && 0 <= qk && qk < qn && i == qpos[qk] && len(dst) == len(old(dst)) + qk && forallT(j, 0, qk, qx[j], dst[len(old(dst)) + j] == qx[j]) ==> forallT(j, 0, qk + 1, qx[j], result[len(old(dst)) + j] == qx[j])
+//@   assert @C17 after append#4: len(result) == len(dst) + 1 && result[len(dst)] == c
+//@   assert @C17 after append#4: qok && 0 <= qk && qk < qn && i == qpos[qk] && len(dst) == len(old(dst)) + qk ==> len(result) == len(old(dst)) + qk + 1 && result[len(old(dst)) + qk] == qx[qk]
+//@   assert @C17 after append#4: 0 <= qk && len(dst) == len(old(dst)) + qk && forallT(j, 0, qk, qx[j], dst[len(old(dst)) + j] == qx[j]) ==> forallT(j, 0, qk, qx[j], result[len(old(dst)) + j] == qx[j])
+//@   assert @C17 after append#4: qok && 0 <= qk && qk < qn && i == qpos[qk] && len(dst) == len(old(dst)) + qk && forallT(j, 0, qk, qx[j], dst[len(old(dst)) + j] == qx[j]) ==> forallT(j, 0, qk + 1, qx[j], result[len(old(dst)) + j] == qx[j])
+//@   assert @C17 before append#3: qok && 0 <= qk && qk < qn && i == qpos[qk] ==> 0 <= qx[qk] && qx[qk] <= 255
+//@   assert @C17 before append#3: qok && 0 <= qk && qk < qn && i == qpos[qk] ==> 0 <= x1 && x1 < 16 && 0 <= x2 && x2 < 16 && x1 * 16 + x2 == qx[qk]
+//@   ensures @C17 qok ==> len(r) == len(dst) + qn && forallT(k, 0, qn, qx[k], r[len(dst) + k] == qx[k])
 //@   loop 0:
 //@     invariant 0 <= i && i <= len(src)
 //@     invariant extends(dst, old(dst)) && spareOnly(old(dst))
 //@     invariant i == 0 ==> len(dst) == len(old(dst)) && (len(src) > 0 ==> src[0] == old(src[0]))
 //@     invariant i > 0 && old(src[0]) != '%' ==> len(dst) > len(old(dst)) && dst[len(old(dst))] == old(src[0])
+//@     invariant @C17 qok ==> 0 <= qk && qk <= qn && i == qpos[qk] && len(dst) == len(old(dst)) + qk
+//@     invariant @C17 qok ==> forallT(j, 0, qk, qx[j], dst[len(old(dst)) + j] == qx[j])
 
 // C07: the normalised path starts with '/', has no "//", "/./", "/../" and does not end in "/..".
 //@ func normalizePath(dst, src) r
@@ -133,6 +163,15 @@ package protocol
 //@   ghostset after AppendQuotedArg#0: qok = true
 //@   replay-import github.com/cloudwego/hertz/internal/bytesconv
 //@   replay-go al := []byte{'%', '+', ' ', 'A', '0', '/', 0xff, 0, '&', '=', 'a', 'G'}; var rec func(x []byte, d int); rec = func(x []byte, d int) { e := bytesconv.AppendQuotedArg(nil, x); _ = e; r := verifArgRoundTrip(x); if !bytes.Equal(r, x) { fmt.Printf("VCGO-VIOLATED decodeArgAppend(AppendQuotedArg(%q)=%q) = %q\n", x, e, r); panic("stop") }; if d == 0 { return }; for _, c := range al { rec(append(append([]byte{}, x...), c), d-1) } }; rec(nil, 4)
+//@   top-ensures @C17 len(r) == len(x) && forall(k, 0, len(x), r[k] == qx[k] && qx[k] == old(x[k]))
+
+//@ func verifPathRoundTrip(x) r
+//@   props C17
+//@   allocates
+//@   modifies qx, qpos, qn, qfs, qk, qok
+//@   ghostset after AppendQuotedPath#0: qok = true
+//@   replay-import github.com/cloudwego/hertz/internal/bytesconv
+//@   replay-go al := []byte{'%', '+', ' ', 'A', '0', '/', 0xff, 0, '*', '?', 'a', 'G'}; var rec func(x []byte, d int); rec = func(x []byte, d int) { r := verifPathRoundTrip(x); if !bytes.Equal(r, x) { fmt.Printf("VCGO-VIOLATED decodeArgAppendNoPlus(AppendQuotedPath(%q)=%q) = %q\n", x, bytesconv.AppendQuotedPath(nil, x), r); panic("stop") }; if d == 0 { return }; for _, c := range al { rec(append(append([]byte{}, x...), c), d-1) } }; rec(nil, 4)
 //@   top-ensures @C17 len(r) == len(x) && forall(k, 0, len(x), r[k] == qx[k] && qx[k] == old(x[k]))
 
 //@ func decodeCookieArg(dst, src, skipQuotes) r
